@@ -14,8 +14,9 @@ the reflected Green's function G(m - r) (reciprocity), and the result is cropped
 
 Observation: public API, precision='double'.  With halo=0 the whole periodic domain is returned
 and every retained component is compared bin by bin (numpy.fft of the output); the bins
-|m| = modes/2 (one-sided Nyquist/edge bins, whose real-part convention the statement does not
-fix) are not compared.  With halo>0 the padded size is odd and all modes are retained, so the
+|m| = modes/2 on an axis that keeps ALL its modes (the Nyquist bin, its own conjugate partner, whose real-part
+convention the statement does not fix) are not compared; on a TRUNCATED axis the retained harmonic -modes/2 has no partner
+and is compared with half the closed form of its own wavenumber (the output is the real part of the series).  With halo>0 the padded size is odd and all modes are retained, so the
 field itself is unambiguous and is compared after the crop.
 """
 import os
@@ -174,6 +175,15 @@ def expected_spectrum(q0p, const, h, dx, dy, modes, meas_pt, bg, footprint, pad)
     nlx, nly = eff_modes(modes, nxe, nye)
     inner = (np.abs(MX) < nlx / 2.0) & (np.abs(MY) < nly / 2.0)
     removed = (np.abs(MX) > nlx / 2.0) | (np.abs(MY) > nly / 2.0)
+    # one-sided edge bins of a TRUNCATED axis: the series retains the harmonic -nl/2 without its partner +nl/2, so that
+    # component is an ordinary complex one with its own wavenumber -(nl/2) dk (on an axis that keeps all its modes the
+    # bin -n/2 is its own conjugate partner and the real-part convention decides: not compared).  The returned field is
+    # the real part of the synthesised series, hence fft2(out)(k) = F(k)/2 there.
+    tx, ty = nlx < nxe, nly < nye
+    ex = (MX == -(nlx // 2)) if tx else np.zeros_like(inner)
+    ey = (MY == -(nly // 2)) if ty else np.zeros_like(inner)
+    inx, iny = np.abs(MX) < nlx / 2.0, np.abs(MY) < nly / 2.0
+    expected_spectrum.edge = (ex & iny) | (ey & inx) | (ex & ey)
     Hp, Hq, _ = closed_form(const, KX, KY, h)
     xm, ym = meas_pt
     px, py = pad
@@ -229,6 +239,12 @@ def analytic_bins(nx, ny, dx, dy, const, grid, closure_kw, levels, modes, meas_p
         if d_rm > 1e-12:
             return Verdict(False, "%s: removed bins carry %.3e" % (name, d_rm),
                            key=tag + "-truncation")
+        edge = expected_spectrum.edge
+        if edge.any():
+            d_ed = float(np.max(np.abs(O[:, edge] - 0.5 * E[:, edge]))) / scale
+            if not np.isfinite(d_ed) or d_ed > TOL:
+                return Verdict(False, "%s: the one-sided edge harmonic (-modes/2) of a truncated axis differs from half the closed form of "
+                               "its own wavenumber by %.3e (rel. to max)" % (name, d_ed), key=tag + "-closed-form")
     return Verdict(True, "%s bins=%d worst=%.2e" % (tag, int(inner.sum()), worst),
                    nontrivial=int(inner.sum()) >= 4)
 
